@@ -216,25 +216,12 @@ func (s *Sim) advance(m *SimMember) {
 			default:
 				return
 			}
-			ctx, cancel := s.ctx()
-			dkgc := make(chan *dkg.DistKeyGenerator, 1)
-			dealsc := make(chan []interface{}, 1)
-			dkgc <- m.gen
-			dealsc <- batch
-			dkgOut, out, errc := dkg.VerifGetAndProcessDeals(ctx, dkgc, dealsc, s.Sid)
-			ec := drain(errc)
-			o, ok := <-out
-			var gen *dkg.DistKeyGenerator
-			if ok {
-				gen = <-dkgOut
-			}
-			<-ec
-			cancel()
-			if !ok || gen == nil {
+			resps, ok := RunDealsStage(m.gen, batch, s.Sid, s.timeout)
+			if !ok {
 				m.stage = "F:noapproval"
 				return
 			}
-			m.resps = o.(*dkg.Responses)
+			m.resps = resps
 			for _, r := range m.resps.Response {
 				m.Approved = append(m.Approved, int(r.Index))
 			}
@@ -246,45 +233,70 @@ func (s *Sim) advance(m *SimMember) {
 			default:
 				return
 			}
-			ctx, cancel := s.ctx()
-			dkgc := make(chan *dkg.DistKeyGenerator, 1)
-			respsc := make(chan []interface{}, 1)
-			dkgc <- m.gen
-			respsc <- batch
-			out, errc := dkg.VerifGetAndProcessResponses(ctx, dkgc, respsc, s.Sid)
-			ec := drain(errc)
-			gen, ok := <-out
-			<-ec
-			if !ok || gen == nil {
-				cancel()
-				m.stage = "F:response"
-				return
-			}
-			gc := make(chan *dkg.DistKeyGenerator, 1)
-			gc <- gen
-			gout, gerrc, get := dkg.VerifGenGroup(ctx, Suite, gc, s.Sid)
-			gec := drain(gerrc)
-			_, gok := <-gout
-			why := <-gec
-			cancel()
-			if !gok {
-				switch {
-				case strings.Contains(why, "not certified"):
-					m.stage = "F:notcertified"
-				case strings.Contains(why, "different number of coefficients"):
-					m.stage = "F:coeffs"
-				default:
-					m.stage = "F:other:" + h.OneLine(why)
-				}
-				return
-			}
-			m.share = get()
-			m.stage = "D"
+			m.stage, m.share = RunRespsStage(m.gen, batch, s.Sid, s.timeout)
 			return
 		default:
 			return
 		}
 	}
+}
+
+// RunDealsStage runs the REAL getAndProcessDeals on one batch: the Responses message the stage emits, or
+// ok=false when it stopped (a non-approval, or nothing handed on).
+func RunDealsStage(gen *dkg.DistKeyGenerator, batch []interface{}, sid string, timeout time.Duration) (*dkg.Responses, bool) {
+	ctx, cancel := context.WithTimeout(context.Background(), timeout)
+	defer cancel()
+	dkgc := make(chan *dkg.DistKeyGenerator, 1)
+	dealsc := make(chan []interface{}, 1)
+	dkgc <- gen
+	dealsc <- batch
+	dkgOut, out, errc := dkg.VerifGetAndProcessDeals(ctx, dkgc, dealsc, sid)
+	ec := drain(errc)
+	o, ok := <-out
+	var g2 *dkg.DistKeyGenerator
+	if ok {
+		g2 = <-dkgOut
+	}
+	<-ec
+	if !ok || g2 == nil {
+		return nil, false
+	}
+	return o.(*dkg.Responses), true
+}
+
+// RunRespsStage runs the REAL getAndProcessResponses and genGroup on one batch: the member's final stage
+// ("D" or "F:<why>") and, when it finished, its key share.
+func RunRespsStage(gen *dkg.DistKeyGenerator, batch []interface{}, sid string, timeout time.Duration) (string, *dkg.DistKeyShare) {
+	ctx, cancel := context.WithTimeout(context.Background(), timeout)
+	defer cancel()
+	dkgc := make(chan *dkg.DistKeyGenerator, 1)
+	respsc := make(chan []interface{}, 1)
+	dkgc <- gen
+	respsc <- batch
+	out, errc := dkg.VerifGetAndProcessResponses(ctx, dkgc, respsc, sid)
+	ec := drain(errc)
+	g2, ok := <-out
+	<-ec
+	if !ok || g2 == nil {
+		return "F:response", nil
+	}
+	gc := make(chan *dkg.DistKeyGenerator, 1)
+	gc <- g2
+	gout, gerrc, get := dkg.VerifGenGroup(ctx, Suite, gc, sid)
+	gec := drain(gerrc)
+	_, gok := <-gout
+	why := <-gec
+	if !gok {
+		switch {
+		case strings.Contains(why, "not certified"):
+			return "F:notcertified", nil
+		case strings.Contains(why, "different number of coefficients"):
+			return "F:coeffs", nil
+		default:
+			return "F:other:" + h.OneLine(why), nil
+		}
+	}
+	return "D", get()
 }
 
 func (s *Sim) Start(i int) {
